@@ -239,3 +239,77 @@ def val(x):
 
 
 val._pyvc_native_only = True
+
+
+# ----------------------------------------------------------------------------- operation specs
+
+def RoundOf(result, x, prec, rnd):
+    """result is the canonical x rounded to prec bits (prec == 0: unchanged); non-finite
+    values pass through"""
+    if is_nonfinite(x):
+        return result == x
+    if prec == 0:
+        return result == x
+    return CRound(result, x[0], x[1], x[2], prec, rnd)
+
+
+def neg_of(t):
+    """exact negation of a canonical value (zero and nan are their own negations)"""
+    if t == finf:
+        return fninf
+    if t == fninf:
+        return finf
+    if t[1] == 0:
+        return t
+    return (1 - t[0], t[1], t[2], t[3])
+
+
+def abs_of(t):
+    if t == fninf:
+        return finf
+    if t[1] == 0:
+        return t
+    return (0, t[1], t[2], t[3])
+
+
+def SumSpec(result, s, t, prec, rnd):
+    """result == round_prec(s + t) for canonical s, t over the extended reals (+ nan);
+    prec == 0 means the exact sum"""
+    if s == fnan or t == fnan:
+        return result == fnan
+    if s == finf or s == fninf:
+        if (t == finf or t == fninf) and t != s:
+            return result == fnan
+        return result == s
+    if t == finf or t == fninf:
+        return result == t
+    if s[1] == 0:
+        return RoundOf(result, t, prec, rnd)
+    if t[1] == 0:
+        return RoundOf(result, s, prec, rnd)
+    E = min(s[2], t[2])
+    S = (1 - 2 * s[0]) * s[1] * pow2(s[2] - E) + (1 - 2 * t[0]) * t[1] * pow2(t[2] - E)
+    if S >= 0:
+        return CRoundOrExact(result, 0, S, E, prec, rnd)
+    return CRoundOrExact(result, 1, -S, E, prec, rnd)
+
+
+def xor01(a, b):
+    if a == b:
+        return 0
+    return 1
+
+
+def ProdSpec(result, s, t, prec, rnd):
+    """result == round_prec(s * t); 0 * inf and nan give nan; prec == 0 exact"""
+    if s == fnan or t == fnan:
+        return result == fnan
+    if is_nonfinite(s) or is_nonfinite(t):
+        if s == fzero or t == fzero:
+            return result == fnan
+        if sgn_of(s) * sgn_of(t) > 0:
+            return result == finf
+        return result == fninf
+    if s[1] == 0 or t[1] == 0:
+        return result == fzero
+    return CRoundOrExact(result, xor01(s[0], t[0]), s[1] * t[1], s[2] + t[2], prec, rnd)
